@@ -460,7 +460,7 @@ def observe_case(pw, rng, case, idx, namecases):
     obs["knows_w"] = any(s in packed for s in caps.secrets) or any(base32_of(k) in packed for k in caps.writekeys)
     for who, d in (("w", wdir), ("r", rdir)):
         children = d._unpack_contents(packed)
-        o = {"kept": len(children) == 1, "md": "md"}
+        o = {"kept": want_listed in children, "md": "md"}
         if len(children) > 1 or (len(children) == 1 and want_listed not in children):
             obs["name"]["listed"] = "?" + repr(list(children.keys()))
         if want_listed in children:
@@ -574,6 +574,118 @@ def run_c19_dirs(args, inp, rng):
     return out
 
 
+# ================================================================ C18: trees of real directories
+class RealDirCaps:
+    """cap table of one real directory (kind read off its cap string)"""
+    def __init__(self, node):
+        u = node.get_uri()
+        kind = {b"DIR2": "DIR2", b"DIR2-MDMF": "DIR2-MDMF", b"DIR2-CHK": "DIR2-CHK", b"DIR2-LIT": "DIR2-LIT"}[u.split(b":")[1]]
+        self.kind = kind
+        self.t = {(kind, "r"): node.get_readonly_uri()}
+        self.secrets, self.writekeys = [], []
+        if node.is_mutable():
+            self.t[(kind, "w")] = u
+            self.secrets.append(u)
+            self.writekeys.append(node._node.get_writekey())
+        self.back = {}
+        for (k, lvl), body in self.t.items():
+            for p, pb in PFX.items():
+                self.back[pb + body] = {"pfx": p, "kind": k, "lvl": lvl, "obj": "o"}
+
+    concrete = Caps.concrete
+    abstract = Caps.abstract
+
+
+def build_tree(g, rng, cases, depth, uniq):
+    """-> tree node {"node": DirectoryNode, "caps": RealDirCaps, "links": [{"name", "g", "caps", "sub": tree or None}]}"""
+    from allmydata.interfaces import MDMF_VERSION, SDMF_VERSION
+    nm = g.nodemaker
+    dk = rng.choice(["mut", "mut", "mut", "imm"])
+    subs = []
+    if depth > 0:
+        for _ in range(rng.choice([0, 1, 1, 2])):
+            subs.append(build_tree(g, rng, cases, depth - 1, uniq))
+    links, children = [], {}
+    oks = [c for c in cases if c["dirkind"] == dk and c["pack"] == "ok" and c["cls"] == ""]
+    for sub in subs:
+        k = sub["caps"].kind
+        if dk == "imm" and sub["node"].is_mutable():
+            continue            # an immutable directory cannot link it (checked at entry level)
+        cands = [c for c in oks if {c["g"]["rw"]["kind"], c["g"]["ro"]["kind"]} <= {k, "none"} and (c["g"]["rw"]["kind"] == k or c["g"]["ro"]["kind"] == k)
+                 and (c["w"]["kept"] or c["r"]["kept"])]
+        c = rng.choice(cands)
+        uniq[0] += 1
+        links.append({"name": "d%d" % uniq[0], "g": c["g"], "caps": sub["caps"], "sub": sub})
+    for _ in range(rng.choice([1, 2, 4, 8])):
+        c = rng.choice(oks)
+        uniq[0] += 1
+        links.append({"name": "c%d" % uniq[0], "g": c["g"], "caps": Caps(b"t%d" % uniq[0]), "sub": None})
+    for ln in links:
+        children[ln["name"]] = (nm.create_from_cap(ln["caps"].concrete(ln["g"]["rw"]), ln["caps"].concrete(ln["g"]["ro"])), {})
+    if dk == "mut":
+        node = g.run(nm.create_new_mutable_directory(children, version=rng.choice([SDMF_VERSION, MDMF_VERSION])))
+    else:
+        node = g.run(nm.create_immutable_directory(children))
+    return {"node": node, "caps": RealDirCaps(node), "links": links}
+
+
+def walk_tree(g, handle, tree, via, steps, events):
+    children = g.run(handle.list())
+    for ln in tree["links"]:
+        st = steps + [ln["g"]]
+        if ln["name"] not in children:
+            events.append({"ev": "path", "via": via, "steps": st, "listed": False, "readonly": False,
+                           "n": {"known": False, "rw": ln["caps"].abstract(None), "ro": ln["caps"].abstract(None), "err": "", "mutable": False, "dir": False}})
+            continue
+        child = children[ln["name"]][0]
+        n = node_abstract(ln["caps"], child)
+        events.append({"ev": "path", "via": via, "steps": st, "listed": True, "n": n,
+                       "readonly": (bool(child.is_readonly()) if n["known"] else False)})
+        if ln["sub"] is not None and n["known"] and n["dir"]:
+            walk_tree(g, child, ln["sub"], via, st, events)
+    extra = set(children.keys()) - {ln["name"] for ln in tree["links"]}
+    if extra:
+        events.append({"ev": "unexpected names %r" % sorted(extra)})
+
+
+def plain_events(g, nm, tree, steps, events):
+    node = tree["node"]
+    if node.is_mutable():
+        ro = nm.create_from_cap(node.get_readonly_uri())
+        raw = g.run(ro._node.download_best_version())
+        leak = False
+        for ln in tree["links"]:
+            c = ln["caps"]
+            for sec in list(c.secrets) + [base32_of(k) for k in c.writekeys]:
+                # only secrets of children that were linked (the table of a fake child holds caps of all kinds, all of them secret)
+                if sec in raw:
+                    leak = True
+        events.append({"ev": "plain", "steps": steps, "leak": leak, "size": len(raw)})
+    for ln in tree["links"]:
+        if ln["sub"] is not None:
+            plain_events(g, nm, ln["sub"], steps + [ln["g"]], events)
+
+
+def run_c18_trees(args, inp, rng):
+    out = []
+    for t in range(args.n):
+        wd = os.path.join(args.work, "tree_%d" % t)
+        g = Grid(wd, num_servers=1, k=1, n=1, happy=1, seed=args.seed)
+        try:
+            uniq = [0]
+            tree = build_tree(g, rng, inp["cases"], rng.choice([1, 2, 2]), uniq)
+            root = tree["node"]
+            events = []
+            walk_tree(g, root, tree, "w", [], events)
+            walk_tree(g, g.nodemaker.create_from_cap(root.get_readonly_uri()), tree, "r", [], events)
+            plain_events(g, g.nodemaker, tree, [], events)
+            out.append({"consts": {"root_kind": tree["caps"].kind}, "events": events, "mutable_objects": g.keypool.i})
+        finally:
+            g.close()
+            shutil.rmtree(wd, ignore_errors=True)
+    return out
+
+
 def main():
     ap = argparse.ArgumentParser()
     ap.add_argument("--out", required=True)
@@ -595,6 +707,8 @@ def main():
             out = run_c19_cases(args, inp, rng)
         elif args.mode == "c19dirs":
             out = run_c19_dirs(args, inp, rng)
+        elif args.mode == "c18trees":
+            out = run_c18_trees(args, inp, rng)
         else:
             raise SystemExit("unknown mode %s" % args.mode)
     finally:
